@@ -1242,7 +1242,6 @@ func ruleJSN9(c *Ctx) {
 	}
 }
 
-
 // jsn4WholeInput: the JSON text is decoded as a whole. json.Unmarshal refuses anything after the first value;
 // (*json.Decoder).Decode reads one value and leaves the rest unread, so `{rule}{rule}` or `{rule}]` would be accepted
 // as its first rule. A Decode in the translator package has to be followed, on every path to a success return, by a
@@ -1292,7 +1291,6 @@ func jsn4WholeInput(c *Ctx) {
 	}
 	c.Check(nUnmarshal+nDecode > 0, "pkg / JSON texts are decoded as a whole", "pkg/JsonResource.go", fmt.Sprintf("%d json.Unmarshal (refuses trailing data), %d streaming decodes examined", nUnmarshal, nDecode), "no JSON decoding call found in the translator package")
 }
-
 
 // jsn3Digits (D28b, D36): a number written as an integer in the JSON text keeps its digits. encoding/json decodes a number
 // into float64 unless the decoder is told to keep the text (UseNumber), and from 2^53 on a float64 is another integer
@@ -1420,7 +1418,6 @@ func jsn3Digits(c *Ctx, fns []*ssa.Function) {
 	c.Check(nDecode > 0 && nFormat > 0, "pkg / JSON numbers: decode sites and formatters of json.Number examined", "pkg/JsonResource.go", fmt.Sprintf("%d decode sites, %d formatters", nDecode, nFormat), fmt.Sprintf("%d decode sites and %d functions formatting a json.Number on the translation path: numbers of a JSON text reach the translator as float64", nDecode, nFormat))
 }
 
-
 // decodeHelperParam: f is a module function that hands one of its parameters to json.Unmarshal / Decoder.Decode as the
 // target; returns the parameter's index (-1 otherwise).
 func decodeHelperParam(f *ssa.Function) int {
@@ -1447,7 +1444,6 @@ func decodeHelperParam(f *ssa.Function) int {
 	}
 	return -1
 }
-
 
 // jsn4OperandKinds (D37): the format lets a plain string, number or boolean stand wherever a condition object is
 // expected. The operands of the comparison and arithmetic operators go through parseOperand, which accepts them; the
